@@ -30,6 +30,12 @@ def gen(rng, n):
                                 rng.choice(scen.DATES), rng.choice(['f', 'd']))
             ents.append({'td': lay.home_trash, 'name': nm})
         mode = rng.choice(['dry', 'dry', 'inter', 'inter', 'tty', 'plain'])
+        if rng.random() < 0.1:
+            # nothing but payloads lacking a .trashinfo in the trash: they are purged too, so the question is asked all the same
+            nodes, ents, mal = [], [], [{'kind': 'payload_only'}]
+            for t0 in [lay.home_trash] + [lay.top2(vv) for vv in lay.all_vols if lay.top[vv][1] == 'dir']:
+                nodes += [['d', t0 + '/info', 0o700], ['f', t0 + '/files/orph', 'no info'], ['d', t0 + '/files/orphdir', 0o755], ['f', t0 + '/files/orphdir/x', 'x']]
+            mode = rng.choice(['inter', 'inter', 'tty', 'dry'])
         argv = []
         env = {}
         if rng.random() < 0.5:
